@@ -7,6 +7,8 @@
 (***************************************************************************)
 EXTENDS Message
 
+CONSTANT Pairwise     \* FALSE: one field varies at a time; TRUE: additionally every pair of fields varies together
+
 Rep(n, c) == [i \in 1 .. n |-> c]
 Ramp(n) == [i \in 1 .. n |-> i % 256]
 
@@ -69,7 +71,11 @@ Tuples(t) ==
   ELSE LET sc == Schema(t)
            n == Len(sc)
            one == UNION {{[i \in 1 .. n |-> IF i = k THEN v ELSE Default(sc[i])] : v \in Dom(sc[k])} : k \in 1 .. n}
-           all == one \cup {[i \in 1 .. n |-> Extreme(sc[i])]} IN
+           two == IF Pairwise
+                  THEN UNION {{[i \in 1 .. n |-> IF i = k THEN v ELSE IF i = m THEN w ELSE Default(sc[i])] :
+                                  v \in Dom(sc[k]), w \in Dom(sc[m])} : k \in 1 .. n, m \in 1 .. n}
+                  ELSE {}
+           all == one \cup two \cup {[i \in 1 .. n |-> Extreme(sc[i])]} IN
        {Patch(t, f) : f \in {g \in all : ~(sc = <<Rst>> /\ g[1] = <<>>)}}
 
 \* RDATA encodings that break a structural rule the crate enforces (C10): <<type, bytes>>
